@@ -63,6 +63,16 @@ EXC = {'ValueError': ValueError, 'KeyError': KeyError, 'TypeError': TypeError, '
        'OSError': OSError, 'StopIteration': StopIteration, 'Told': Told, 'Exception': Exception}
 
 
+EXC_ARGS = {'': ('f was told to raise',), '0': (), '2': (2, 'f was told to raise'), '3': ('f', 'was', 'told'), 'p': ('100%s of %d %(x)s',), 't': (('a', 'tuple'),)}
+
+
+def _exception(told):
+    """'!ValueError' or '!ValueError:2' -> the exception instance f raises; the suffix picks its args (none, one message, 2-3 args as OSError(errno, text)
+    has, a message with % signs, one tuple)"""
+    name, _, shape = told[1:].partition(':')
+    return EXC[name](*EXC_ARGS[shape])
+
+
 def _sig(s):
     n, d, va, vk = int(s['n']), int(s['d']), bool(s['va']), bool(s['vk'])
     if not (0 <= n <= 4 and 0 <= d <= n):
@@ -188,7 +198,7 @@ def make_family(s, logs, dvals_list, form='def', counter=False, ret=None):
         vals = [v for _, v in p] + list(va_ or ()) + [vk_[k] for k in (vk_ or {})]
         for v in vals:
             if isinstance(v, str) and v.startswith('!'):
-                raise EXC[v[1:]]('f was told to raise')
+                raise _exception(v)
         # 'vko': the order in which the extra keywords arrived is part of what f received
         res = {'p': p, 'va': va_, 'vk': vk_, 'vko': None if vk_ is None else list(vk_)}
         if counter:
@@ -848,6 +858,9 @@ def s_try(draw):
             slots = [('a', 0)] if args else [('k', 0)]
         kind, i = draw(st.sampled_from(slots))
         told = '!' + draw(st.sampled_from(sorted(EXC)))
+        shape = draw(st.sampled_from(['', '', '0', '2', '3', 'p', 't']))
+        if shape:
+            told += ':' + shape
         if kind == 'a':
             args[i] = told
         else:
@@ -860,17 +873,31 @@ def s_try(draw):
         free = [nm for nm in ok if nm not in stack]
         if free:
             stack.insert(draw(st.integers(0, len(stack))), draw(st.sampled_from(free)))
-    return dict(sig=s, args=args, kwargs=kwargs, stack=stack)
+    spec = dict(sig=s, args=args, kwargs=kwargs, stack=stack)
+    if name in TRY_VALUES and draw(st.booleans()):
+        # the parameterised spelling of the same wrapper: try_value(value = fallback, verbose = .., repeat = ..)(f)
+        spec['opts'] = dict(verbose=draw(st.sampled_from([True, True, False, None])), repeat=draw(st.sampled_from([0, 0, 1, 2])))
+    return spec
 
 
 def _told(args, kwargs):
     for v in list(args) + [v for _, v in kwargs]:
         if isinstance(v, str) and v.startswith('!'):
-            return v[1:]
+            return v[1:].partition(':')[0]
     return None
 
 
 def run_try(spec):
+    import logging
+    prev_level = logging.root.manager.disable
+    logging.disable(logging.CRITICAL)          # verbose wrappers log a warning per failure: not to the check's output
+    try:
+        return _run_try(spec)
+    finally:
+        logging.disable(prev_level)
+
+
+def _run_try(spec):
     s, args, kwargs, stack = spec['sig'], spec['args'], spec['kwargs'], spec['stack']
     tries = [nm for nm in stack if KLASS[nm] in ('try_value', 'try_back')]
     if len(tries) != 1:
@@ -890,14 +917,26 @@ def run_try(spec):
         raised = None
     except Exception as e:
         exp, raised = None, e
-    if (raised is None) != (told is None) or (told is not None and type(raised) is not EXC[told]):
+    if (raised is None) != (told is None) or (told is not None and not isinstance(raised, EXC[told])):
         raise HarnessError('generated f does not obey: told %r, raised %r' % (told, raised))
     what = stack_text(stack)
-    w = wrap(stack, f)
-    check_argspec(what, w, f)
-    a, k = bvals(args, kwargs)
-    txt = call_text(s, args, kwargs)
-    r = call('%s for %s' % (what, txt), w, *a, **k)
+    opts = spec.get('opts')
+    if opts:
+        import pyg_base
+        decos = {nm: deco(nm) for nm in stack}
+        decos[name] = call('try_value(value = %r, **%r)' % (fallback_of(name), opts), pyg_base.try_value, value=fallback_of(name), **opts)
+        what = what.replace(name + '(', 'try_value(value = %r, verbose = %r, repeat = %r)(' % (fallback_of(name), opts['verbose'], opts['repeat']), 1)
+        w = wrap(stack, f, decos)
+        check_argspec(what, w, f)
+        a, k = bvals(args, kwargs)
+        txt = call_text(s, args, kwargs)
+        r = call('%s for %s' % (what, txt), w, *a, **k)
+    else:
+        w = wrap(stack, f)
+        check_argspec(what, w, f)
+        a, k = bvals(args, kwargs)
+        txt = call_text(s, args, kwargs)
+        r = call('%s for %s' % (what, txt), w, *a, **k)
     if raised is None:
         check(same(r, exp), '%s for %s: f does not raise and returns %s, but the wrapper returned %s', what, txt, exp, r)
     elif name == 'try_back':
@@ -917,8 +956,15 @@ def run_try(spec):
     cls = [name, 'raises' if raised is not None else 'returns', 'depth=%i' % len(stack)]
     if raised is not None:
         cls.append('exc:' + told)
+        cls.append('exception_args=%i' % len(raised.args))
         if not len(args):
             cls.append('raises_all_by_keyword')
+        if opts and opts['verbose']:
+            cls.append('verbose_wrapper_sees_exception')
+            if len(raised.args) != 1 or '%' in str(raised.args[0]):
+                cls.append('verbose_wrapper_sees_unusual_exception_args')
+    if opts:
+        cls.append('parameterised:repeat=%i' % opts['repeat'])
     return dict(nt=raised is not None or len(stack) >= 2, cls=cls)
 
 
@@ -1384,7 +1430,7 @@ SHAPE_OF = {i: g for g, idx in SHAPE_GROUPS.items() for i in idx}
 SAME_DICT = (23, 24)
 CACHED = [
     dict(sig=dict(n=2, d=1, va=False, vk=False), stack=['cache']),
-    # same signature, separate wrapper: caches must not be shared. Returns None / 0 / False / '' / [] / {} depending on its first argument
+    # same signature, separate wrapper made by the same decorator object: caches must not be shared. Returns None / 0 / False / '' / [] / {} depending on its first argument
     dict(sig=dict(n=2, d=1, va=False, vk=False), stack=['cache'], ret=['by_first']),
     dict(sig=dict(n=1, d=0, va=True, vk=True), stack=['cache', 'cache'], ret=['by_first']),       # wrapped twice = wrapped once
     dict(sig=dict(n=3, d=3, va=False, vk=True), stack=['cache'], ret=['by_first']),
@@ -1417,7 +1463,11 @@ class CacheModel(object):
     def __init__(self):
         self.logs = [[] for _ in CACHED]
         self.fs = [make_fn(c['sig'], log, counter=True, ret=c.get('ret')) for c, log in zip(CACHED, self.logs)]
-        self.ws = [wrap(c['stack'], f) for c, f in zip(CACHED, self.fs)]
+        # functions 0 and 1 (same signature) are decorated through ONE decorator object, d = cache_func(); d(f0); d(f1): every wrapper still has a cache of its own.
+        # The others go through the class, cache(f).
+        import pyg_base
+        one = call('cache_func()', pyg_base.cache_func)
+        self.ws = [call('d = cache_func(); d(f%i)' % i, one, f) if i < 2 else wrap(c['stack'], f) for i, (c, f) in enumerate(zip(CACHED, self.fs))]
         for c, w, f in zip(CACHED, self.ws, self.fs):
             lw, fw = layers(w)
             check(len(lw) == 1 and fw is f, '%s is not a single cache layer around f: %s', stack_text(c['stack']), w)
@@ -1618,10 +1668,10 @@ SUBS = [
         floor=0.4, class_floors={'through_1': 0.2, 'direct': 0.2, 'through_2': 0.05, 'variant_differs': 0.03, 'spec_cached_before': 0.15}),
     Sub('try_fallback', lambda tier: s_try(), run_try, quick=2000, thorough=30000,
         rule='one try_* layer (try_none/nan/zero/true/false/list/back), alone or with 1-2 transparent layers (kwargs_support, cache, loop, pd2np) around it; '
-             'f is told to raise one of 12 Exception classes through any positional / keyword / *va / **vk slot, or not told; the wrapper must return f\'s '
+             'f is told to raise one of 12 Exception classes (built with no argument, a message, 2-3 arguments, a message holding % signs, or one tuple) through any positional / keyword / *va / **vk slot, or not told; half of the try_value layers are spelled try_value(value=.., verbose=True/False/None, repeat=0/1/2)(f); the wrapper must return f\'s '
              'result when f returns and the fallback (try_back: the first argument; try_list: a fresh list every time) when f raises. '
              'non-trivial = f raises, or stack >= 2',
-        floor=0.4, class_floors={'raises': 0.3, 'returns': 0.2, 'try_back': 0.15, 'try_list': 0.05, 'raises_all_by_keyword': 0.03}),
+        floor=0.4, class_floors={'raises': 0.3, 'returns': 0.2, 'try_back': 0.15, 'try_list': 0.05, 'raises_all_by_keyword': 0.03, 'verbose_wrapper_sees_exception': 0.05, 'verbose_wrapper_sees_unusual_exception_args': 0.02, 'exception_args=0': 0.03, 'exception_args=2': 0.03}),
     Sub('kwargs_support', lambda tier: s_kws(), run_kws, quick=2000, thorough=30000,
         rule='kwargs_support (alone or with 1-2 other decorators above/below) on functions without **vk: valid call plus 1-3 undeclared keywords (x, y, z, '
              'va, vk, function, e, value, exc, cache, names of parameters the function does not have, sub-/super-strings of declared names) in any order -> result of the call without them; a declared keyword that '
@@ -1629,7 +1679,7 @@ SUBS = [
         floor=0.3, class_floors={'duplicate': 0.05, 'declared+undeclared_keywords': 0.1, 'undeclared_named_like_varargs': 0.05,
                                  'undeclared_is_substring_or_superstring_of_declared': 0.03, 'undeclared_named_like_wrapper_parameter': 0.04}),
     MachineSub('cache_history', CacheModel, quick=(400, 30), thorough=(3000, 40),
-               rule='histories of <= 30/40 calls on four cached functions (two with the same signature, one wrapped twice, one all-defaults with **vk); arguments '
+               rule='histories of <= 30/40 calls on four cached functions (two with the same signature and decorated through one decorator object d = cache_func(), one wrapped twice, one all-defaults with **vk); arguments '
                     'from a 12-element pool (None, 0, 1, "a", [1,2], {"k":1} and the hash twins -1, -2, 2**61-1, 2**61, [-1,3], [-2,3]) in random positional/keyword spellings, re-issued earlier calls (keywords reordered, '
                     'fresh equal containers), the same binding through another split, the same call on the twin function, an earlier call with one argument replaced by its hash twin (a distinct key); model: per function a dict keyed by '
                     '(positional values, sorted keyword items) as passed; every call must evaluate f once if the key is new and not at all otherwise and return '
